@@ -70,7 +70,7 @@ def chatty_history(rng, n: int) -> List[Any]:
         elif c < 19:
             ops.append(K.rand_invalid(rng, ts))
         else:
-            ops.append(["purge", ts])
+            ops.append([rng.choice(["purge", "purge0"]), ts])
     return ops
 
 
@@ -82,7 +82,13 @@ def recipes(ctx: Ctx):
         i += 1
     depth = 3 if ctx.thorough else 2
     for ops in K.exhaustive_histories(depth):
-        out.append((f"e{i}", {"ops": ops}))
+        out.append((f"e{i}", {"ops": ops, "cbs": ["both", "sync", "async"][i % 3]}))
+        i += 1
+    for nd in ([70, 130] if not ctx.thorough else [70, 130, 200, 300, 90, 150, 65, 100]):
+        out.append((f"m{i}", {"ops": K.many_devices_history(ctx.rng, nd)}))
+        i += 1
+    for _ in range(40 if ctx.thorough else 12):
+        out.append((f"f{i}", {"ops": K.f03a_history(ctx.rng)}))
         i += 1
     n_random = 14000 if ctx.thorough else 1200
     for _ in range(n_random):
@@ -91,7 +97,7 @@ def recipes(ctx: Ctx):
             ops = chatty_history(ctx.rng, n)
         else:
             ops = K.rand_history(ctx.rng, n)
-        out.append((f"r{i}", {"ops": ops}))
+        out.append((f"r{i}", {"ops": ops, "cbs": ctx.rng.choice(["both", "both", "sync", "async"])}))
         i += 1
     return out
 
